@@ -36,6 +36,8 @@ type pworld struct {
 	EchoHeaders bool     `json:"echo_headers"`   // error bodies echo the request headers
 	AlwaysDeny  bool     `json:"always_deny"`    // 401 even with Authorization
 	HostChal    string   `json:"host_challenge"` // log downloads are always answered 401 with this challenge: "basic", "digest-sha512", "bearer"
+	AuthedChal  string   `json:"authed_challenge"` // AUTHENTICATED requests are answered 401 + this challenge (at most 3 times per path): "digest-stale", "digest-renonce", "digest-realm2", "digest-authint", "digest-noqop", "digest-md5sess", "digest-sha256"
+	AuthedScope string   `json:"authed_scope"`     // "logs" (default) or "all"
 	_           []string `json:"-"`
 }
 
@@ -69,6 +71,7 @@ func init() {
 	var mu sync.Mutex
 	hostIdx := 0
 	hostOf := map[string]int{}
+	authedCount := map[string]int{}
 	logf, _ := os.OpenFile(filepath.Join(dir, "requests.jsonl"), os.O_CREATE|os.O_WRONLY|os.O_APPEND, 0644)
 
 	handler := http.HandlerFunc(func(rw http.ResponseWriter, r *http.Request) {
@@ -92,6 +95,31 @@ func init() {
 			if w.EchoHeaders {
 				fmt.Fprintf(rw, "denied; your headers: %v", r.Header)
 			}
+		}
+		if w.AuthedChal != "" && auth != "" && (w.AuthedScope == "all" || strings.Contains(r.URL.Path, "/logs/")) && authedCount[r.URL.Path] < 3 {
+			authedCount[r.URL.Path]++
+			n := fmt.Sprintf("n0nc3re%d", authedCount[r.URL.Path])
+			switch w.AuthedChal {
+			case "digest-stale":
+				rw.Header().Set("WWW-Authenticate", `Digest realm="MMS Public API", domain="", nonce="`+n+`", algorithm=MD5, qop="auth", stale=true`)
+			case "digest-renonce":
+				rw.Header().Set("WWW-Authenticate", `Digest realm="MMS Public API", domain="", nonce="`+n+`", algorithm=MD5, qop="auth", stale=false`)
+			case "digest-realm2":
+				rw.Header().Set("WWW-Authenticate", `Digest realm="Another Realm", nonce="`+n+`", algorithm=MD5, qop="auth"`)
+			case "digest-authint":
+				rw.Header().Set("WWW-Authenticate", `Digest realm="MMS Public API", nonce="`+n+`", algorithm=MD5, qop="auth-int", stale=true`)
+			case "digest-noqop":
+				rw.Header().Set("WWW-Authenticate", `Digest realm="MMS Public API", nonce="`+n+`", stale=true`)
+			case "digest-md5sess":
+				rw.Header().Set("WWW-Authenticate", `Digest realm="MMS Public API", nonce="`+n+`", algorithm=MD5-sess, qop="auth", stale=TRUE`)
+			default:
+				rw.Header().Set("WWW-Authenticate", `Digest realm="MMS Public API", nonce="`+n+`", algorithm=SHA-256, qop="auth", stale=true`)
+			}
+			rw.WriteHeader(401)
+			if w.EchoHeaders {
+				fmt.Fprintf(rw, "denied; your headers: %v", r.Header)
+			}
+			return
 		}
 		if w.HostChal != "" && strings.Contains(r.URL.Path, "/logs/") {
 			switch w.HostChal {
